@@ -423,6 +423,15 @@ def boundary_cases():
                                                               IT('k', (0, 2, 1), H(1, a=('0', {'j': '1/2', 'k': '1/4'}), b=('0', {'i': '1/2'}))))),
                                        H(1, a=('1/4', {'j': '1/2'}), b='1/4'))), ['b', 'a']))
     out.append((IT('j', (0, 2, 1), REP(2, SEQ(H(1, a=a_j, b='1/2'), IT('i', (0, 2, 1), H(1, a=a_j, b=('0', {'i': '1/2'})))))), ['a', 'b']))
+    # a repetition whose body changes one register known at its entry and leaves another one alone
+    out.append((IT('j', (0, 2, 1), SEQ(H(1, a=('0', {'j': '1/2'})),
+                                       REP(2, IT('i', (0, 3, 1), H(1, a=('0', {'i': '1/4', 'j': '1'})))))), ['a']))
+    out.append((IT('j', (0, 3, 1), SEQ(H(1, a=('0', {'j': '1/2'}), b=('1', {'j': '1/4'})),
+                                       REP(3, SEQ(H(1, a=('0', {'j': '1/2'}), b='1/2'),
+                                                  IT('i', (0, 2, 1), H(1, a=('0', {'i': '1/4', 'j': '1'}), b=('1', {'j': '1/4'}))))))), ['b', 'a']))
+    out.append((IT('j', (0, 3, 1), SEQ(H(1, a=('0', {'j': '1/2'})),
+                                       REP(2, SEQ(IT('i', (0, 3, 1), H(1, a=('0', {'i': '1/4', 'j': '1'}))),
+                                                  H(1, a=('0', {'j': '1/2'})))))), ['a']))
     out.append((SEQ(H(1, a='3/2'), REP(3, SEQ(H(1, a='3/2'), H(1, a='5/2')))), ['a']))    # F3 plain
     out.append((IT('j', (0, 2, 1), SEQ(H(1, a=('0', {'j': '1/2'})), REP(2, SEQ(H(1, a=('0', {'j': '1/2'})), H(1, a='5/2'))))), ['a']))
     out.append((IT('i', (5, 0, -2), H(1, a=a_i('1', '1/4'))), ['a']))
